@@ -195,19 +195,62 @@ NaiveSteps(A) == NaiveStepsR(A, 1, 1)
 LeadMinor(A, k) == DetL([i \in 1..k |-> [j \in 1..k |-> A[i][j]]])
 
 ZeroPivot(A) == \E k \in 1..Len(NaiveSteps(A)) : NaiveSteps(A)[k].piv = 0
-\* Known_C13-no-pivoting: non-singular, yet elimination in the given row
-\* order meets a zero pivot
+\* C13-no-pivoting (repaired in /repo by 'fix: gj_solve never exchanged
+\* rows'; kept as documentation and as a coverage class): non-singular, yet
+\* elimination in the given row order meets a zero pivot.  Such a system
+\* must now be solved like any other.
 NeedsRowExchange(A) == Det(A) # 0 /\ ZeroPivot(A)
 
-\* Known_C13-abs-pivot-tol: some pivot tested by gj_solve is smaller than
-\* 2^-39 (> 1e-12, the absolute threshold in the code) in the real, scaled
-\* matrix: real pivot k = piv/prev * 2^(re[k] + ce[k]); or, whatever the
-\* order of elimination, every entry of the real matrix is that small
+(***************************************************************************)
+(* Elimination with partial pivoting - what gj_solve does since the fix:   *)
+(* at step k the row (k or below) with the largest |entry| in column k is  *)
+(* exchanged into the pivot position, the first one on ties.  re[i] is the *)
+(* power-of-two scaling of real row i (real row i = 2^re[i] * A[i]); a     *)
+(* column scaling is common to the candidates and does not affect the      *)
+(* choice.  Fraction-free as above, so the real pivot of step k is         *)
+(* piv/prev * 2^(e + ce[k]) with e the scaling of the chosen row.          *)
+(* PivotedElim returns [steps, last, sgn]: one record [piv, prev, e] per   *)
+(* step k = 1 .. n-1 (stopping at a column that is zero on and below the   *)
+(* diagonal), the last diagonal entry and the sign of the permutation.     *)
+(***************************************************************************)
+\* a * 2^ea < b * 2^eb for 0 <= a, b < 2^29
+LtScaled(a, ea, b, eb) == LtPow2(a, ea - eb, b)
+RECURSIVE PivotedR(_, _, _, _, _)
+PivotedR(M, re, k, prev, sgn) ==
+    LET n == Rows(M)
+    IN IF k >= n THEN [steps |-> <<>>, last |-> M[n][n], sgn |-> sgn]
+       ELSE LET \* first row whose scaled |entry| no later row exceeds ...
+                best == {r \in k..n :
+                           \A q \in k..n :
+                               ~LtScaled(Abs(M[r][k]), re[r],
+                                         Abs(M[q][k]), re[q])}
+                p == CHOOSE r \in best : \A q \in best : r <= q
+                P == IF p = k THEN M ELSE SwapRows(M, p, k)
+                pe == [i \in 1..n |-> IF i = k THEN re[p]
+                                      ELSE IF i = p THEN re[k] ELSE re[i]]
+                rec == [piv |-> P[k][k], prev |-> prev, e |-> pe[k]]
+            IN IF P[k][k] = 0
+               THEN [steps |-> <<rec>>, last |-> 0, sgn |-> sgn]
+               ELSE LET N == [i \in 1..n |-> [j \in 1..n |->
+                                IF i > k /\ j > k
+                                THEN (P[k][k] * P[i][j] - P[i][k] * P[k][j])
+                                         \div prev
+                                ELSE P[i][j]]]
+                        rest == PivotedR(N, pe, k + 1, P[k][k],
+                                         IF p = k THEN sgn ELSE -sgn)
+                    IN [rest EXCEPT !.steps = <<rec>> \o rest.steps]
+PivotedElim(A, re) == PivotedR(A, re, 1, 1, 1)
+
+\* Known_C13-abs-pivot-tol: some pivot tested by gj_solve (the pivots of
+\* steps 1 .. n-1 of the pivoted elimination) is smaller than 2^-39 (> 1e-12,
+\* the absolute threshold in the code) in the real, scaled matrix; or,
+\* whatever the order of elimination, every entry of the real matrix is
+\* that small
 TinyAbsPivot(A, re, ce) ==
-    LET st == NaiveSteps(A)
+    LET st == PivotedElim(A, re).steps
     IN \/ \E k \in 1..Len(st) :
             /\ st[k].piv # 0
-            /\ LtPow2(Abs(st[k].piv), re[k] + ce[k] + 39, Abs(st[k].prev))
+            /\ LtPow2(Abs(st[k].piv), st[k].e + ce[k] + 39, Abs(st[k].prev))
        \/ /\ Rows(A) >= 2
           /\ \A i, j \in 1..Rows(A) :
                 LtPow2(Abs(A[i][j]), re[i] + ce[j] + 39, 1)
@@ -285,14 +328,13 @@ GjFailed(c) ==
               THEN {"nonsingular_solution"} ELSE {})
 
 GjKnown(c) ==
-    (IF NeedsRowExchange(c.A) THEN {"C13-no-pivoting"} ELSE {})
-    \cup (IF Det(c.A) # 0 /\ TinyAbsPivot(c.A, c.re, c.ce)
-          THEN {"C13-abs-pivot-tol"} ELSE {})
+    IF Det(c.A) # 0 /\ TinyAbsPivot(c.A, c.re, c.ce)
+    THEN {"C13-abs-pivot-tol"} ELSE {}
 
 GjClass(c) ==
     IF Det(c.A) = 0 THEN "singular"
-    ELSE IF ZeroPivot(c.A) THEN "zero_pivot"
     ELSE IF TinyAbsPivot(c.A, c.re, c.ce) THEN "tiny_abs_pivot"
+    ELSE IF ZeroPivot(c.A) THEN "needs_row_exchange"
     ELSE "regular"
 
 (* --- products, identity, layout: exact ---------------------------------
